@@ -299,6 +299,10 @@ func (h *hist) violate(inv, key, detail string) bool {
 
 // Run implements core.Property.
 func (Prop) Run(t *core.Tape, o core.RunOpts) *core.Result {
+	// every history starts from the packages' initial state: the generated VsimReset
+	// re-executes all package-level initialisers (caches, counters, anything an edited tree
+	// adds), restoreGlobals puts back the documented switches
+	resetPackages()
 	restoreGlobals()
 	defer restoreGlobals()
 	h := &hist{t: t, o: o, res: core.NewResult(), hash: core.NewHash(), class: core.NewHash(), memo: map[string]memoEntry{}}
@@ -460,7 +464,7 @@ func (h *hist) opCall() {
 	var scanSrc interface{}
 	scanKind := 0
 	if entry == EScan {
-		scanKind = t.Choose(9)
+		scanKind = t.Choose(13)
 		if h.clean {
 			scanKind = t.Choose(2)
 		}
@@ -499,6 +503,16 @@ func (h *hist) opCall() {
 			scanSrc = int64(t.Choose(1 << 20))
 		case 8:
 			scanSrc = genDate(t)
+		case 9:
+			scanSrc = (*time.Time)(nil) // typed nil, as a nullable column hands over
+		case 10:
+			scanSrc = []byte(nil)
+		case 11:
+			var ps *string
+			scanSrc = ps
+		case 12:
+			var pd *date.Date
+			scanSrc = pd
 		}
 	}
 	garbage := t.Word() | 1
